@@ -659,8 +659,10 @@ func ruleTPush(c *Ctx) {
 	}
 	sibs := []sib{
 		{"bscript", "", "MinPushSize", "len(p0)", []string{"== 0", "== 1", "<= 75", "<= 255", "<= 65535"}},
-		{"bscript/interpreter", "*ParsedOpcode", "enforceMinimumDataPush", "len(", []string{"== 0", "== 1", "<= 75", "<= 255", "<= 65535"}},
 	}
+	// the interpreter's sibling, enforceMinimumDataPush, is decided in full by T-min (its whole decision
+	// table, not only its boundaries)
+	ruleTMin(c)
 	for _, s := range sibs {
 		fn := c.P.Func(s.pkg, s.recv, s.name)
 		key := s.name
